@@ -1,0 +1,58 @@
+//go:build verif
+
+// Contracts for the deductive verifier in /verif (govc). Only compiled with -tags verif.
+
+package state
+
+// ---- C08: notices -----------------------------------------------------------------------------
+
+//@ func sliceContains
+//@   props C08
+//@   ensures result == (exists j int :: 0 <= j && j < len(haystack) && haystack[j] == needle)
+//@   loop 0: invariant -1 <= idx0 && idx0 < len(haystack)
+//@   loop 0: invariant forall j int :: 0 <= j && j <= idx0 ==> haystack[j] != needle
+
+// a filter lets a notice through iff: the notice is public or belongs to the filter's user (when the
+// filter names one), its type and key are among the listed ones (when any are listed), and it was
+// last repeated strictly after the filter's cursor (when one is set)
+//@ define filterOK(f *NoticeFilter, n *Notice) = f == nil || ((f.UserID == nil || n.userID == nil || *f.UserID == *n.userID) && (len(f.Types) == 0 || exists j int :: 0 <= j && j < len(f.Types) && f.Types[j] == n.noticeType) && (len(f.Keys) == 0 || exists j int :: 0 <= j && j < len(f.Keys) && f.Keys[j] == n.key) && (f.After.IsZero() || n.lastRepeated.After(f.After)))
+
+//@ func (*NoticeFilter).matches
+//@   props C08
+//@   ensures result == filterOK(f, n)
+
+//@ func ValidateNotice
+//@   trusted
+//@   assigns nothing
+
+//@ func flattenUserID
+//@   assigns nothing
+
+// A notice recorded without an explicit time gets a timestamp strictly later than every timestamp
+// handed out before; it is (re)announced with exactly that timestamp, so a client polling with
+// "after = last timestamp seen" sees it exactly once.
+//@ func (*State).AddNotice
+//@   props C08
+//@   requires s != nil
+//@   ensures result1 == nil && old(options == nil || options.Time.IsZero()) ==> s.lastNoticeTimestamp.After(old(s.lastNoticeTimestamp)) && final(now) == s.lastNoticeTimestamp
+//@   ensures result1 == nil ==> final(notice) != nil && final(notice).lastOccurred == final(now)
+//@   ensures result1 == nil && final(newOrRepeated) ==> final(notice).lastRepeated == final(now)
+//@   ensures result1 == nil && !final(newOrRepeated) ==> final(notice).lastRepeated == old(final(notice).lastRepeated) && !final(ok) == false
+
+//@ func lemCursorSeesNewNoticeOnce
+//@   lemma
+//@   props C08
+//@   requires f != nil && n != nil && filterOK(f, n) && !f.After.IsZero()
+//@   ensures n.lastRepeated.After(f.After)
+
+// a notice that passes a filter with cursor c was repeated strictly after c: once the client moves
+// its cursor to the notice's lastRepeated time, the same announcement no longer passes
+func lemCursorSeesNewNoticeOnce(f *NoticeFilter, n *Notice) {}
+
+//@ func lemCursorAdvancedHidesNotice
+//@   lemma
+//@   props C08
+//@   requires f != nil && n != nil && !f.After.IsZero() && !n.lastRepeated.After(f.After)
+//@   ensures !filterOK(f, n)
+
+func lemCursorAdvancedHidesNotice(f *NoticeFilter, n *Notice) {}
